@@ -28,6 +28,31 @@ func init() {
 	})
 }
 
+// directErrorRecord: in is errors[key] = append(errors[key], e) on the scan's
+// error map, written out instead of going through a collector closure; returns
+// the description of the key.
+func directErrorRecord(c *Ctx, s *scanShape, in ssa.Instruction, raw bool) (string, bool) {
+	mu, ok := in.(*ssa.MapUpdate)
+	if !ok || s.errorsMap == nil || mapRoot(c, mu.Map) != s.errorsMap {
+		return "", false
+	}
+	ap, isAp := mu.Value.(*ssa.Call)
+	if !isAp || ir.BuiltinName(ap) != "append" {
+		return "", false
+	}
+	lk, isLk := ap.Call.Args[0].(*ssa.Lookup)
+	if !isLk || mapRoot(c, lk.X) != s.errorsMap || !(lk.Index == mu.Key || c.valueDesc(lk.Index) == c.valueDesc(mu.Key)) {
+		return "", false
+	}
+	if len(c.U.ContainerElems(ap.Call.Args[1])) != 1 {
+		return "", false
+	}
+	if raw {
+		return c.valueDescRaw(mu.Key), true
+	}
+	return c.valueDesc(mu.Key), true
+}
+
 func runC13(c *Ctx) {
 	r := c.R
 	r.Rule("C13.1", "walk-returns: the walk callback returns only nil, SkipDir or the scan function's result; non-ENOENT failures go to the scan function", 4)
@@ -203,6 +228,7 @@ func runC13(c *Ctx) {
 	}
 	// the failure edge records before returning
 	var collector *ssa.Function
+	nDirect := 0
 	for _, iff := range ir.Ifs(scb) {
 		tv, nilSucc, ok := ir.NilTest(iff)
 		if !ok || tv != ssa.Value(scb.Params[3]) {
@@ -210,6 +236,13 @@ func runC13(c *Ctx) {
 		}
 		bad := ir.Edge{From: iff.Block(), Succ: 1 - nilSucc}
 		recorded := func(in ssa.Instruction) bool {
+			if kd, ok := directErrorRecord(c, s, in, true); ok {
+				if strings.Contains(kd, "param:path") {
+					nDirect++
+					return true
+				}
+				return false
+			}
 			call, ok := in.(*ssa.Call)
 			if !ok {
 				return false
@@ -235,7 +268,7 @@ func runC13(c *Ctx) {
 		esc := ir.CanReach(scb, ir.PathQuery{FromEdge: &bad, Stop: recorded})
 		r.Check("C13.3", "failure-recorded", !esc, c.pos(iff), "on a load failure every path records the error under the file's path before the callback returns")
 	}
-	if collector == nil {
+	if collector == nil && nDirect == 0 {
 		r.Violation("C13.3", "failure-recorded", c.U.Pos(scb.Pos()), "refresh's scan callback has no branch on its error parameter that records the failure")
 	}
 	// ReadSpec failure shape
@@ -262,6 +295,9 @@ func runC13(c *Ctx) {
 	}
 
 	// ---- C13.5 the collector
+	if collector == nil && nDirect > 0 {
+		r.OK("C13.5", "collector", c.U.Pos(scb.Pos()), "errors are recorded in place: errors[path] = append(errors[path], err) in the map published as c.errors (no collector closure)")
+	}
 	if collector != nil {
 		var loop *ir.Loop
 		for _, l := range ir.Loops(collector) {
